@@ -12,7 +12,12 @@ def run_node(job, hashseed, timeout=300, cwd=None):
     """returns (transcript dict, None) or (None, error text)"""
     env = dict(os.environ)
     env['PYTHONHASHSEED'] = str(hashseed)
-    env['PYTHONDONTWRITEBYTECODE'] = '1'
+    # children may write bytecode, but only into this check run's private, initially empty PYTHONPYCACHEPREFIX (never into /repo):
+    # the first node compiles lark, the others reuse it
+    if env.get('PYTHONPYCACHEPREFIX'):
+        env.pop('PYTHONDONTWRITEBYTECODE', None)
+    else:
+        env['PYTHONDONTWRITEBYTECODE'] = '1'
     env['LARK_REPO'] = core.REPO
     env.pop('VERIF_REEXECED', None)
     try:
